@@ -422,6 +422,12 @@ pub fn check_ranges_transition(info: &LangInfo, parser: &mut Parser, doc: &[u8],
     // Known finding (see C13): a range boundary inside a multi-byte character does not cut the character.
     let splits = |d: &[u8], r: &[(usize, usize)]| match std::str::from_utf8(d) { Ok(st) => r.iter().any(|&(s, e)| [s, e].iter().any(|&b| b < d.len() && !st.is_char_boundary(b))), Err(_) => false };
     if splits(doc, r1) || splits(&new_text, r2) { for e in errs.iter_mut() { e.0 = "ranges:range-boundary-splits-character".into(); } }
+    // Known finding: the runtime compares range lists by the bytes they cover. Two lists that cover the same text in different
+    // pieces are the same to it, but not to a scanner that asks `is_at_included_range_start` (language `seam`).
+    if info.name == "seam" && edit.is_none() {
+        let starts = |r: &[(usize, usize)]| -> Vec<usize> { if r.is_empty() { vec![0] } else { let mut v: Vec<usize> = r.iter().filter(|&&(s, e)| e.min(doc.len()) > s.min(doc.len())).map(|&(s, _)| s).collect(); v.dedup(); v } };
+        if starts(r1) != starts(r2) { for e in errs.iter_mut() { e.0 = "ranges:range-starts-differ-for-boundary-querying-scanner".into(); } }
+    }
     if edit.is_some() && r1.iter().any(|&(s, _)| s == u32::MAX as usize) { for e in errs.iter_mut() { e.0 = "ranges:old-tree-starts-at-u32max-then-edited".into(); } }
     (errs, outcome, nontrivial)
 }
